@@ -1,1 +1,25 @@
-From Arche Require Import Model.Base.
+(** C17 - Entity dump/load.  Statements only; proofs in Proofs/ResReg.v (pool) and
+    Proofs/PoolInv.v (what equal pools imply for all later creations and removals). *)
+From Arche Require Import Model.Base Model.Pool Model.World Model.Ops Proofs.ResReg.
+
+(** Loading a dump reproduces the dumped world's entity pool exactly ... *)
+Theorem C17_load_dump_pool : forall w1 w2 w',
+  world_load w2 (world_dump w1) = Some w' -> w_pool w' = w_pool w1.
+Proof. exact load_dump_pool. Qed.
+
+(** ... hence the same Alive answer for every handle and the same handles for every
+    later creation and removal. *)
+Theorem C17_same_future : forall w1 w',
+  w_pool w' = w_pool w1 ->
+  pool_get (w_pool w') = pool_get (w_pool w1) /\
+  forall e, pool_recycle (w_pool w') e = pool_recycle (w_pool w1) e /\ pool_alive (w_pool w') e = pool_alive (w_pool w1) e.
+Proof. exact load_same_future. Qed.
+
+(** Loading into a locked world, or one that has (or had, without a reset) entities, is
+    refused and changes nothing. *)
+Theorem C17_load_refused : forall w d,
+  is_locked w = true \/ 1 < length (p_ents (w_pool w)) \/ 0 < p_avail (w_pool w) ->
+  step w (OLoad d) = (w, Panic, []).
+Proof. exact load_refused. Qed.
+
+Print Assumptions C17_load_dump_pool.
